@@ -30,6 +30,11 @@ class Arr:
         return "Arr(%s#%d,len=%s)" % (self.name, self.id, self.length)
 
 
+# every out-of-range access any domain of this process has met (safety net: report.Check.finish turns an entry that no
+# rule reported into a violation, so a check can never pass over an access outside an array it modelled)
+GLOBAL_OOB = []
+
+
 class Elem(Cell):
     """lvalue of one array element"""
     __slots__ = ("arr", "idx", "dom", "site")
@@ -121,6 +126,7 @@ class ConcDomain(Domain):
     def bounds(self, arr, idx, site):
         if isinstance(idx, int) and arr.length is not None and not (0 <= idx < arr.length):
             self.oob.append((arr.name, idx, arr.length, site))
+            GLOBAL_OOB.append((arr.name, idx, arr.length, site))
 
     def unknown_int(self, arr, idx, site):
         raise AnalysisBroken("int array %s read at %s before it was written (at %s)" % (arr.name, idx, site))
